@@ -23,6 +23,9 @@ EXPLANATION = (
     'acquisition of parent directories is handed off and removed at commit/'
     'rollback (R14.3). Each order is a dominance query over all paths.'
     ' R10.2 also includes exception identity (R2.2) and the reservation typestate of _build_file (R14.1).')
+# round 3/4 additions
+EXPLANATION += (
+    ' R10.2 also decides the order in the failure handler (target removed before the record is published). R10.4 includes R9.6 and requires the hand-off handler not to select by exception class.')
 
 
 def r10_1(ctx, rc):
